@@ -68,6 +68,14 @@ type Script struct {
 	// (0 = the default 2 s).  With a tight slack an item's wait is only judged
 	// when no scheduling stall was observed between its acceptance and its emission.
 	SlackMS int `json:",omitempty"`
+	// Scribble: both neighbours of the processor overwrite what they own once
+	// they are done with it: the sink (declared with MutatesData) records a
+	// batch and its metadata, then overwrites every element of every []string it
+	// obtained from Metadata.Get ("returning a copy") and defaces and empties the
+	// batch; each producer passes a private copy of its metadata map and
+	// overwrites the values after Consume returned.  Nothing of this may show
+	// in any later batch; the oracle is unchanged.
+	Scribble bool `json:",omitempty"`
 }
 
 const longTimeoutMS = 600000
@@ -188,6 +196,7 @@ func genScript(t *rapid.T) Script {
 		s.Max = lo + rapid.SampledFrom([]int{0, 0, 1, 2, 3, 5, 8, 20}).Draw(t, "maxextra")
 	}
 	s.SinkDelayUS = rapid.SampledFrom([]int{0, 0, 0, 50, 300, 1000}).Draw(t, "sinkdelay")
+	s.Scribble = rapid.Bool().Draw(t, "scribble")
 	s.Settle = rapid.Bool().Draw(t, "settle")
 	if !s.Settle {
 		s.ShutdownDelayUS = rapid.SampledFrom([]int{0, 0, 0, 20, 200, 2000}).Draw(t, "shutdowndelay")
@@ -237,19 +246,31 @@ type batchRec struct {
 }
 
 type sink struct {
-	mu      sync.Mutex
-	delay   time.Duration
-	batches []*batchRec
-	idGroup map[int64]int
-	emitted []int // per group: items emitted so far
-	total   int
+	mu       sync.Mutex
+	delay    time.Duration
+	scribble bool
+	batches  []*batchRec
+	idGroup  map[int64]int
+	emitted  []int // per group: items emitted so far
+	total    int
 }
 
 func (k *sink) consume(ctx context.Context, v any) error {
 	rec := &batchRec{at: vnow(), stalls: vstalls.Load(), items: sig.Items(v), count: sig.Count(v), md: map[string][]string{}}
 	md := client.FromContext(ctx).Metadata
+	var got [][]string
 	for key := range md.Keys() {
-		rec.md[key] = md.Get(key)
+		vals := md.Get(key)
+		rec.md[key] = append([]string(nil), vals...)
+		got = append(got, vals)
+	}
+	if k.scribble {
+		for _, vals := range got {
+			for i := range vals {
+				vals[i] = "****"
+			}
+		}
+		scribbleBatch(v)
 	}
 	k.mu.Lock()
 	k.batches = append(k.batches, rec)
@@ -280,10 +301,11 @@ func build(s *Script, k *sink) (component.Component, consumeFn, *vt.Finding) {
 		return nil, nil, vt.Failf("harness/config", "generated config rejected by Validate: %v", err)
 	}
 	set := processortest.NewNopSettings(f.Type())
+	caps := consumer.WithCapabilities(consumer.Capabilities{MutatesData: s.Scribble})
 	ctx := context.Background()
 	switch s.Signal {
 	case sig.Logs:
-		next, _ := consumer.NewLogs(func(ctx context.Context, ld plog.Logs) error { return k.consume(ctx, ld) })
+		next, _ := consumer.NewLogs(func(ctx context.Context, ld plog.Logs) error { return k.consume(ctx, ld) }, caps)
 		p, err := f.CreateLogs(ctx, set, cfg, next)
 		if err != nil {
 			return nil, nil, vt.Failf("harness/create", "CreateLogs: %v", err)
@@ -296,7 +318,7 @@ func build(s *Script, k *sink) (component.Component, consumeFn, *vt.Finding) {
 			return p.ConsumeLogs(ctx, v.(plog.Logs))
 		}, nil
 	case sig.Traces:
-		next, _ := consumer.NewTraces(func(ctx context.Context, td ptrace.Traces) error { return k.consume(ctx, td) })
+		next, _ := consumer.NewTraces(func(ctx context.Context, td ptrace.Traces) error { return k.consume(ctx, td) }, caps)
 		p, err := f.CreateTraces(ctx, set, cfg, next)
 		if err != nil {
 			return nil, nil, vt.Failf("harness/create", "CreateTraces: %v", err)
@@ -309,7 +331,7 @@ func build(s *Script, k *sink) (component.Component, consumeFn, *vt.Finding) {
 			return p.ConsumeTraces(ctx, v.(ptrace.Traces))
 		}, nil
 	case sig.Metrics:
-		next, _ := consumer.NewMetrics(func(ctx context.Context, md pmetric.Metrics) error { return k.consume(ctx, md) })
+		next, _ := consumer.NewMetrics(func(ctx context.Context, md pmetric.Metrics) error { return k.consume(ctx, md) }, caps)
 		p, err := f.CreateMetrics(ctx, set, cfg, next)
 		if err != nil {
 			return nil, nil, vt.Failf("harness/create", "CreateMetrics: %v", err)
@@ -366,7 +388,7 @@ func runInner(c *vt.C, s *Script) (nontrivial bool, f *vt.Finding) {
 	groupIdx := map[string]int{}
 	var groupVals []map[string][]string
 	var groupNames []string
-	k := &sink{delay: time.Duration(s.SinkDelayUS) * time.Microsecond, idGroup: map[int64]int{}}
+	k := &sink{delay: time.Duration(s.SinkDelayUS) * time.Microsecond, idGroup: map[int64]int{}, scribble: s.Scribble}
 	for p, as := range s.Producers {
 		for i := range as {
 			a := &as[i]
@@ -418,11 +440,26 @@ func runInner(c *vt.C, s *Script) (nontrivial bool, f *vt.Finding) {
 					time.Sleep(time.Duration(r.a.PauseMS) * time.Millisecond)
 				}
 				ctx := context.Background()
+				var mine map[string][]string
 				if !r.a.NoInfo {
-					ctx = client.NewContext(ctx, client.Info{Metadata: client.NewMetadata(r.a.MD)})
+					mine = r.a.MD
+					if s.Scribble && mine != nil {
+						mine = map[string][]string{}
+						for mk, mv := range r.a.MD {
+							mine[mk] = append([]string(nil), mv...)
+						}
+					}
+					ctx = client.NewContext(ctx, client.Info{Metadata: client.NewMetadata(mine)})
 				}
 				r.stalls = vstalls.Load()
 				r.err = consume(ctx, r.a.Data)
+				if s.Scribble {
+					for _, mv := range mine {
+						for i := range mv {
+							mv[i] = "####"
+						}
+					}
+				}
 				r.returned = vnow()
 			}
 		}(p, mine)
@@ -729,6 +766,24 @@ func runInner(c *vt.C, s *Script) (nontrivial bool, f *vt.Finding) {
 	}
 	if split {
 		c.Class("arrival-split-over-batches")
+	}
+	if s.Scribble {
+		c.Class("scribbling-neighbours")
+		perGroup := map[int]int{}
+		for _, b := range batches {
+			for _, it := range b.items {
+				if r, ok := idArr[it.ID]; ok {
+					perGroup[r.group]++
+					break
+				}
+			}
+		}
+		for _, n := range perGroup {
+			if n >= 2 && len(s.Keys) > 0 {
+				c.Class("scribbling-sink&keyed-group-with>=2-batches")
+				break
+			}
+		}
 	}
 	if s.Settle {
 		c.Class("shutdown:after-settle")
